@@ -55,3 +55,8 @@ claim("C11", "exploration", "bounded-exhaustive enumeration of mixed CPU/NPU net
       "Every network of the grammar (CPU-only steps: third-party custom op, NEG, DEPTH_TO_SPACE, dynamic-weight CONV_2D with/without bias; taps and CPU/NPU branches giving several outputs and multi-consumer tensors) x configuration sub-lattice and every builtin operator as a single-operator model is compiled; subgraph inputs/outputs (order, name, shape, type, quantisation), every surviving operator (opcode, version, option table field by field via generic vtable walk, custom options, operand positions incl. omitted (-1) operands, constant operand data) or its absorption/folding, topological operator order, and re-readability by Vela's own reader are checked.",
       "Tensor identity across files is the tensor name; an absent option table equals a table of defaults; trailing omitted operands equal a shorter operand list; single-operator corner models without option tables are judged on interface/wiring only.",
       "DESIGN.md section 4 C11")
+
+claim("C14", "model_checking", "explicit exploration of compilation histories in one process (BFS to depth 2/3) with a differential oracle against the same event from the initial process state; fresh interpreters for hash-seed / heap-layout axes",
+      "60 events (12 models chosen to share process-global keys - LUTs, value-keyed weights, zero biases, duplicate tensor names, CPU operators, two networks that enter the hill-climb random search - x {main on 3 accelerators, convert, convert_bytes}); every history of length 2 (thorough: length 3 over distinct models) runs in one forked process and the bytes + summary of its last event must equal those of that event alone; main/convert/convert_bytes must agree byte for byte; 12 events are repeated in fresh interpreters under several PYTHONHASHSEED values and heap perturbations.",
+      "Initial process state = worker that imported Vela but never compiled; histories longer than 3 are not explored; canonical-state pruning is not used (all histories are run).",
+      "DESIGN.md section 4 C14")
